@@ -8,7 +8,7 @@ import wfcheck as wc
 THEOREMS = ["C06_exchange_flips_determinant", "C06_relabelling_gives_signature", "C06_multideterminant_flips", "C06_pair_sums_ignore_same_spin_relabelling",
             "C06_exchange_of_same_spin_electrons_keeps_spins", "C06_one_body_sums_ignore_same_spin_relabelling", "C06_differences_ignore_translation",
             "C06_lattice_translation_multiplies_by_twist_phase", "C06_twist_phase_is_multiplicative", "C06_kpoints_of_one_twist_share_the_phase", "C06_twist_phase_has_modulus_one",
-            "C06_signature_flips_on_adjacent_exchange", "C06_signature_of_identity_is_even"]
+            "C06_signature_flips_on_adjacent_exchange", "C06_signature_of_identity_is_even", "C06_signature_flips_on_any_exchange"]
 S_X = "exchange of same-spin electrons"
 S_T = "rigid translation of molecule and electrons"
 S_L = "lattice translation of electrons"
